@@ -5,6 +5,7 @@ import (
 	"go/ast"
 	"go/token"
 	"go/types"
+	"golang.org/x/tools/go/ssa"
 	"regexp"
 	"strings"
 
@@ -76,9 +77,22 @@ func (c *Ctx) setIDCalls() []setIDCall {
 	})
 	// a call inside a wrapper (a function that passes its own parameters on) is represented by
 	// the wrapper's call sites; the inner levels are kept for the guard test
+	// the numbering discipline concerns what printing can reach; an editing helper that clears or
+	// renumbers IDs when the caller edits a block is not a printer (nothing prints concurrently
+	// with an edit)
+	reach := map[*ssa.Function]bool{}
+	{
+		order, _ := c.effects().reach(c.methodRoots(irPkgs, printRootNames))
+		for _, f := range order {
+			reach[f] = true
+		}
+	}
 	var out []setIDCall
 	for _, sc := range all {
 		if sums[sc.fn] != nil {
+			continue
+		}
+		if sf := c.ssaFunc(sc.fn); sf != nil && !reach[sf] {
 			continue
 		}
 		// collect the inner levels: the wrapper bodies this call leads to
@@ -231,7 +245,7 @@ func idStoreGuarded(info *types.Info, sc setIDCall) (bool, string) {
 				if as, ok := st.(*ast.AssignStmt); ok && len(as.Lhs) == 1 && len(as.Rhs) == 1 && strings.ReplaceAll(exprString(as.Rhs[0]), " ", "") == recvS+".ID()" {
 					idVar = exprString(as.Lhs[0])
 				}
-				if is, ok := st.(*ast.IfStmt); ok && is.Else == nil && len(is.Body.List) == 1 {
+				if is, ok := st.(*ast.IfStmt); ok && is.Else == nil && len(is.Body.List) >= 1 {
 					cond := strings.ReplaceAll(exprString(is.Cond), " ", "")
 					// `id != -1` on a local holding recv.ID(), or `recv.ID() != -1` itself; the
 					// sentinel may be a named constant
@@ -248,7 +262,8 @@ func idStoreGuarded(info *types.Info, sc setIDCall) (bool, string) {
 						}
 					}
 					if sentinel || (idVar != "" && cond == idVar+"!=-1") {
-						switch b := is.Body.List[0].(type) {
+						// the branch for an already assigned ID ends the iteration (whatever else it does first)
+						switch b := is.Body.List[len(is.Body.List)-1].(type) {
 						case *ast.BranchStmt:
 							if b.Tok == token.CONTINUE {
 								guarded, how = true, fmt.Sprintf("skipped unless %s == -1 (still unassigned)", idVar)
